@@ -8,7 +8,7 @@
    extracted model is the independent implementation, anchored by the published vectors). *)
 From Coq Require Import ZArith List Permutation.
 From GoIpa Require Import Model.Bytes Model.Alg Model.Transcript Model.Bary Model.Banderwagon Model.IPA Model.Multiproof
-  Proofs.AlgLaws Proofs.GroupingProofs Proofs.MultiproofProofs.
+  Proofs.AlgLaws Proofs.GroupingProofs Proofs.MultiproofProofs Proofs.ReprProofs.
 Import ListNotations.
 
 Theorem C03_create_schedule_independent :
@@ -35,3 +35,13 @@ Example C03_example_permutation : Permutation [2; 0; 1]%nat (seq 0 3).
 Proof. apply Permutation_sym. change (seq 0 3) with [0;1;2]%nat.
        apply perm_trans with [0;2;1]%nat; [apply perm_skip, perm_swap|].
        apply perm_trans with [2;0;1]%nat; [apply perm_swap|apply Permutation_refl]. Qed.
+
+(* the proof depends on the given commitments only as group elements: replacing them by
+   elements with the same encoding (any equivalent representation) gives the same result *)
+Theorem C03_create_representation_independent :
+  forall (F G : Type) (fo : FOps F) (go : GOps F G) (hashf : list Z -> list Z) (eqv : G -> G -> Prop),
+  (forall a a', eqv a a' -> genc go a = genc go a') ->
+  forall nw arrival t cfg commit cs cs' fs zs, Forall2 eqv cs cs' ->
+    mp_create fo go hashf nw arrival t cfg commit cs fs zs = mp_create fo go hashf nw arrival t cfg commit cs' fs zs.
+Proof. intros F G fo go hashf eqv H. exact (mp_create_compat fo go hashf eqv H). Qed.
+Print Assumptions C03_create_representation_independent.
